@@ -5,7 +5,21 @@ from harness.scen import call, LOOK_TO, GO, THATS_ALL, ROUNDS, STAND
 class C07(scen.WorldProp):
     id = "C07"
     lean_module = "Wheatley.Props.C07"
-    theorems = []
+    theorems = ["Wheatley.C07.stand_law",
+                "Wheatley.C07.stops_only_before_handstroke",
+                "Wheatley.C07.stops_only_on_request",
+                "Wheatley.C07.stop_at_rounds_law",
+                "Wheatley.C07.thats_all_sets",
+                "Wheatley.C07.thats_all_one_more_row",
+                "Wheatley.C07.thats_all_in_rounds",
+                "Wheatley.C07.flags_persist",
+                "Wheatley.C07.rounds_row_rung",
+                "Wheatley.C07.rounds_call_law",
+                "Wheatley.C07.stand_call_law",
+                "Wheatley.C07.stopped_stays_stopped",
+                "Wheatley.C07.silent_when_stopped",
+                "Wheatley.C07.only_look_to_starts",
+                "Wheatley.startNextRow_ctl"]
     level_text = ("theorems: That's all gives at most one more method row then rounds; Rounds returns to the opening "
                   "row from the next row; Stand / stop-at-rounds stop ringing only at a row boundary whose next row is "
                   "a handstroke; only Look To can start ringing again (all for arbitrary states). correspondence: "
